@@ -19,6 +19,7 @@ mod c13;
 mod c12;
 mod mutate;
 mod c15;
+mod c19;
 
 use engine::{Env, Tier};
 use std::path::PathBuf;
@@ -115,6 +116,7 @@ fn main() {
         "C13" => c13::run(&env),
         "C12" => c12::run(&env),
         "C15" => c15::run(&env),
+        "C19" => c19::run(&env),
         _ => usage(),
     };
     std::process::exit(code);
